@@ -18,6 +18,7 @@ pub const EXPRS: &[&str] = &[
     "  abs('x') ",                      // differs from the first only in surrounding whitespace
     "to_string(`1`)",                   // two literals that are equal by value but spelled differently
     "to_string(`1.0`)",
+    "type('1')",                        // a raw string with the same inner text as a JSON literal above
 ];
 
 pub fn docs() -> Vec<Value> {
@@ -29,7 +30,7 @@ pub fn docs() -> Vec<Value> {
     ]
 }
 
-pub const N_E: usize = 10;
+pub const N_E: usize = 11;
 pub const N_D: usize = 4;
 
 #[derive(Clone, Copy, Debug, PartialEq, Eq, Hash)]
